@@ -24,6 +24,7 @@ func scenFrames(out *scenOut, r *rng, thorough bool) {
 	for _, fps := range []int{5, 20} {
 		framesWithModeTraffic(out, fps)
 	}
+	framesAfterIdle(out, 20)
 }
 
 func framesOnce(out *scenOut, fps int) {
@@ -128,6 +129,36 @@ func framesWithModeTraffic(out *scenOut, fps int) {
 	limit := int(elapsed.Seconds()*float64(fps)) + 4 + int(float64(fps)*0.07)
 	if int(n) > limit {
 		out.fail(finding{Property: "C19", Class: "new", What: "more than one render per frame interval (the view was painted outside the frame ticker while mode commands were handled)", Input: desc,
+			Expected: fmt.Sprintf("at most %d painting writes in %v at %d fps", limit, elapsed.Round(time.Millisecond), fps), Observed: fmt.Sprint(n)})
+	}
+}
+
+// framesAfterIdle: the view is constant for 1.4 s (longer than any plausible "idle" threshold), then
+// changes every millisecond for half a second: the frame-rate bound holds after a quiet spell as
+// it does from the start.
+func framesAfterIdle(out *scenOut, fps int) {
+	ctl := newRecCtl()
+	buf := &paintCounter{marker: "tick "}
+	ctl.viewOf = func(version, ups int) string { return fmt.Sprintf("tick %d\nsecond line\n", ups) }
+	run := startProgram(ctl, &buf.safeBuffer, tea.WithOutput(buf), tea.WithInput(nil), tea.WithoutSignalHandler(), tea.WithFPS(fps))
+	desc := fmt.Sprintf("WithFPS(%d): a constant view for 1.4 s, then the view changes every millisecond for 0.5 s", fps)
+	run.p.Send(tea.WindowSizeMsg{Width: 40, Height: 10})
+	waitFor(2*time.Second, func() bool { return ctl.log.has("view-exit", "") })
+	time.Sleep(1400 * time.Millisecond)
+	p0 := atomic.LoadInt64(&buf.paints)
+	t0 := time.Now()
+	for time.Since(t0) < 500*time.Millisecond {
+		run.p.Send(userMsg{0, 0})
+		time.Sleep(time.Millisecond)
+	}
+	elapsed := time.Since(t0)
+	n := atomic.LoadInt64(&buf.paints) - p0
+	run.p.Quit()
+	run.wait(4 * time.Second)
+	out.record(fmt.Sprintf("frames-after-idle/%d", fps), desc)
+	limit := int(elapsed.Seconds()*float64(fps)) + 4
+	if int(n) > limit {
+		out.fail(finding{Property: "C19", Class: "new", What: "more than one render per frame interval (after a quiet spell)", Input: desc,
 			Expected: fmt.Sprintf("at most %d painting writes in %v at %d fps", limit, elapsed.Round(time.Millisecond), fps), Observed: fmt.Sprint(n)})
 	}
 }
